@@ -584,3 +584,54 @@ Section Final.
     apply perm_same. rewrite <- P1, <- P2. exact Pm.
   Qed.
 End Final.
+
+(* ================================================================================================ *)
+(* the executable classifier of the known defect class, and the refutation witness                  *)
+
+Fixpoint prefixb (q p : path) : bool :=
+  match q, p with
+  | [], _ => true
+  | a :: q', b :: p' => str_eqb a b && prefixb q' p'
+  | _ :: _, [] => false
+  end.
+
+Lemma prefixb_true q p : prefix q p -> prefixb q p = true.
+Proof. intros (r & ->). induction q as [|a q IH]; cbn; [reflexivity|]. rewrite str_eqb_refl. exact IH. Qed.
+
+Definition overlapb (ops : list op) : bool :=
+  existsb (fun o1 => is_opaque o1 && existsb (fun o2 => prefixb (op_path o1 ++ [op_name o1]) (op_path o2)) ops) ops.
+
+(* None = outside every known defect class *)
+Definition defect_class (ops : list op) : option str :=
+  if overlapb ops then Some (s "output-dir-overlaps-interior-dir") else None.
+
+Lemma defect_class_none ops : defect_class ops = None -> no_overlap ops.
+Proof.
+  unfold defect_class. destruct (overlapb ops) eqn:E; [discriminate|]. intros _ o1 o2 H1 H2 Ho Hp.
+  assert (X : overlapb ops = true); [|congruence].
+  unfold overlapb. apply existsb_exists. exists o1. split; [exact H1|]. rewrite Ho. cbn.
+  apply existsb_exists. exists o2. split; [exact H2|]. apply prefixb_true. exact Hp.
+Qed.
+
+(* a hash that tells the two roots of the witness apart (any injective hash does) *)
+Definition wit_H (m : dirmsg) : str :=
+  flat_map (fun n => dname n ++ match ddig n with Some d => d | None => [] end) (dirs m) ++ flat_map fname (files m) ++ flat_map sname (syms m).
+
+Definition wit_ops : list op := [AddDir [] (s "x") (s "D"); AddFile [s "x"] (FN (s "f") (s "d") false)].
+Definition wit_ops' : list op := [AddFile [s "x"] (FN (s "f") (s "d") false); AddDir [] (s "x") (s "D")].
+
+Ltac no_prefix := let r := fresh "r" in let E := fresh "E" in intros (r & E); vm_compute in E; congruence.
+
+Lemma wit_realizable : realizable wit_ops.
+Proof.
+  split; [|split].
+  - intros o [<-|[<-|[]]]; cbn; (split; [discriminate|]); intros sg; cbn; intuition (subst; discriminate).
+  - intros o1 o2 [<-|[<-|[]]] [<-|[<-|[]]]; cbn; intros; try reflexivity; discriminate.
+  - intros o1 o2 [<-|[<-|[]]] [<-|[<-|[]]]; cbn; intros; try discriminate; no_prefix.
+Qed.
+
+Lemma wit_differs : root_digest wit_H isort wit_ops <> root_digest wit_H isort wit_ops'.
+Proof. vm_compute. congruence. Qed.
+
+Lemma wit_class : defect_class wit_ops = Some (s "output-dir-overlaps-interior-dir").
+Proof. reflexivity. Qed.
